@@ -19,6 +19,8 @@ use crate::http::Request;
 use crate::marker::StaticOrDynamic;
 #[cfg(feature = "router")]
 use crate::router::Route;
+#[cfg(all(redirectionio_verif, feature = "router"))]
+use crate::verif_hooks::rand;
 use linked_hash_set::LinkedHashSet;
 use serde::{Deserialize, Serialize};
 pub use status_code_update::StatusCodeUpdate;
